@@ -149,8 +149,74 @@ def driver(ctx, crate):
     ctx.report(clause, fn + ":returns-builder.to_bmoc", len(tb) == 1 and r.returns and r.ret == tb[0].ret, "the result is bmoc_builder.to_bmoc()", at=b.span, kind="N")
 
 
+def bounding_cone_coverage(ctx, crate):
+    """N: the radius of the bounding cone is the maximum over ALL given points (the start cells are
+    chosen from it; a vertex left out of the maximum can fall outside every start cell).
+    Decided for the recognised iteration idioms (index loop over a..len with the first indices
+    handled apart, iteration over the slice itself, windows(w) with a constant element); other
+    idioms are recorded as not decided."""
+    clause = "bounding-cone"
+    fn = "sph_geom::cone::Cone::bounding_cone"
+    b = ctx.anchor(crate, fn, clause)
+    if b is None: return
+    e = Engine(crate); e.run(fn); ctx.functions |= e.visited_fns
+    P = param("points")
+    evs = [ev for ev in e.events.values() if len(ev.site) == 2]
+    dist = [ev for ev in evs if ev.callee and ev.callee.endswith("squared_euclidean_dist")]
+    lens = {ev.ret for ev in evs if ev.callee and strip_generics(ev.callee).endswith("::len") and ev.args and ev.args[0] == P}
+    ranges = {}     # iterator symbol -> start constant, for Range{a, len(points)}
+    for ev in evs:
+        if ev.callee and "IntoIterator>::into_iter" in strip_generics(ev.callee) and ev.args and ev.args[0][0] == 'agg' and ev.args[0][1] == 'adt:std::ops::Range':
+            a, bnd = ev.args[0][3]
+            if a[0] == 'c' and bnd in lens: ranges[ev.ret] = a[2]
+    nexts = {}      # next() result -> iterator value it was called on
+    for ev in evs:
+        if ev.callee and ev.callee.endswith("::next") and ev.argvals and ev.argvals[0] is not None:
+            nexts[ev.ret] = ev.argvals[0]
+    consts = set(); from_a = None; whole = False; unknown = []
+    for ev in dist:
+        a = ev.args[1]
+        t = a[1] if a[0] == 'ref_t' else a
+        # &*points[idx]
+        idxs = [x for x in walk(t) if x[0] == 'idx' and any(y == P for y in walk(x[1]))]
+        if len(idxs) == 1:
+            i = idxs[0][2]
+            if i[0] == 'c': consts.add(i[2]); continue
+            src = [x for x in walk(i) if x in nexts]
+            if src:
+                it = nexts[src[0]]
+                # the iterator value may have been havocked by earlier next() calls: follow to its origin
+                from rules.common import derives
+                for rsym, a0 in ranges.items():
+                    if derives(e, it, rsym): from_a = a0 if from_a is None else min(from_a, a0)
+                continue
+        unknown.append(show(a)[:60])
+    # iteration over the slice itself with the distance in the loop body
+    for ev in evs:
+        if ev.callee and "into_iter" in ev.callee and ev.args and ev.args[0] == P:
+            its = ev.ret
+            for d in dist:
+                if any(x in nexts and derives_from(e, nexts[x], its) for x in walk(d.args[1])): whole = True
+    wins = [ev for ev in evs if ev.callee and strip_generics(ev.callee).endswith("::windows") and ev.args and ev.args[0] == P]
+    if not dist and wins:
+        ctx.report(clause, fn + ":all-points-in-the-maximum", False,
+                   "the maximum distance is taken over windows(%s) of the points: the last %s point(s) can only enter through a constant element of each window and the trailing ones never do" % (show(wins[0].args[1]), "w-1"), at=b.span, kind="N"); return
+    if not dist or unknown:
+        ctx.not_decided("bounding_cone's maximum is not written with a recognised iteration idiom: coverage of all points not decided"); return
+    full = whole or (from_a is not None and all(k in consts for k in range(from_a)))
+    ctx.report(clause, fn + ":all-points-in-the-maximum", full,
+               "distance taken at indices %s and over %s: every point enters the maximum" % (sorted(consts), "the whole slice" if whole else "%s..len" % from_a) if full else
+               "indices covered: constants %s, range %s..len: some points never enter the maximum" % (sorted(consts), from_a), at=b.span, kind="N")
+
+
+def derives_from(e, x, src):
+    from rules.common import derives
+    return derives(e, x, src)
+
+
 def run(ctx):
     crate = ctx.crate("rel")
+    bounding_cone_coverage(ctx, crate)
     recur_rules(ctx, crate)
     count_rule(ctx, crate)
     driver(ctx, crate)
